@@ -26,6 +26,7 @@ Design(in, k) ==
       ty == IF LowerSeq(segs[1]) = TextPlain THEN <<>> ELSE segs[1]                       \* D3 default type dropped
       ps == SelectSeq(Tail(segs), LAMBDA s : s # <<>> /\ LowerSeq(s) # CharsetAscii)      \* D4 default charset dropped
       mtOut == FoldLeft(LAMBDA a, s : a \o <<59>> \o s, ty, ps)
+               \o (IF ps # <<>> /\ LowerSeq(ps[Len(ps)]) = Base64Tok THEN <<59>> ELSE <<>>)   \* a last parameter spelled base64 must not become the marker
       b64c == 7 + B64Len(Len(q))
       pctc == Len(q) + 2 * Count(q, PolicyEscape)
       r == Data5 \o mtOut \o (IF b64c < pctc THEN <<59>> \o Base64Tok \o <<44>> \o B64Encode(q)     \* D5 base64 shorter
